@@ -97,7 +97,90 @@ pub fn diag_kind(d: &SourceDiag) -> String {
         if m == format!("Ignoring {c} in text mode") { return format!("component-in-text-mode:{c}"); }
     }
     for (p, k) in table { if m.starts_with(p) { return k.to_string(); } }
+    if let Some(k) = learned_kind(m) { return k; }
     format!("other:{}", m.replace(' ', "_"))
+}
+
+// ---- reworded messages ---------------------------------------------------------------------------------------------
+// The kinds above are recognised by message text. A change that only REWORDS a message (same construct, same severity,
+// stage and labels) must not look like a different diagnostic. Before a run, `calibrate` parses one small input per kind
+// (below) with the real code; a diagnostic whose text is not catalogued but which is the only unrecognised diagnostic of the
+// expected severity and stage in a report that lacks the expected kind is taken to be that kind, and its text (quoted parts
+// and digits removed, component word generalised) is recognised from then on. On the unchanged tree nothing is learned.
+
+static LEARNED: std::sync::RwLock<Vec<(String, String)>> = std::sync::RwLock::new(Vec::new());
+
+fn template(m: &str) -> String {
+    let mut out = String::new();
+    let mut in_quote = false;
+    for c in m.chars() {
+        if c == '\'' { in_quote = !in_quote; out.push(c); continue; }
+        if in_quote || c.is_ascii_digit() { continue; }
+        out.push(c);
+    }
+    for c in ["ingredient", "cookware", "timer"] { out = out.replace(c, "{c}"); }
+    out
+}
+
+fn learned_kind(m: &str) -> Option<String> {
+    let l = LEARNED.read().ok()?;
+    if l.is_empty() { return None; }
+    let t = template(m);
+    let (_, k) = l.iter().find(|(tt, _)| *tt == t)?;
+    if k.contains("{c}") {
+        let c = ["ingredient", "cookware", "timer"].into_iter().find(|c| m.contains(c))?;
+        Some(k.replace("{c}", c))
+    } else { Some(k.clone()) }
+}
+
+/// (input, extended parser?, expected kind, error?, parse stage?)
+const CALIBRATION: &[(&str, bool, &str, bool, bool)] = &[
+    ("@{1%g}", false, "empty-name:ingredient", true, true), ("x @zq{1/0%g}", false, "division-by-zero", true, true), ("x @zq{%g}", false, "empty-value", true, true),
+    ("x #zpot{1%kg}", false, "cookware-unit", true, true), ("x #za|{}", true, "empty-alias:cookware", true, true), ("x #za|zb|zc{}", true, "multiple-aliases:cookware", true, true),
+    ("x @??zq{}", true, "duplicate-modifier", true, true), ("x #&znosuch{}", true, "reference-not-found", true, false), ("#zpp{} and #&zpp{}(a note)", true, "note-in-reference", true, false),
+    ("#zpp{} and #&?zpp{}", true, "ref-conflicting-modifiers", true, false), ("x ~zt{5}", false, "timer-missing-unit", true, true), ("x ~ztimer{}", true, "timer-missing-quantity", true, true),
+    ("x ~{}", false, "timer-neither-name-nor-quantity", true, true), ("x #@zpot{}", true, "cookware-recipe-modifier", true, true), ("x ~?zt{5%min}", true, "modifiers-not-allowed:timer", true, true),
+    ("x ~za|zb{5%min}", true, "alias-not-allowed:timer", true, true), (">> [mode]: components\n\n@zqq{1%g}\n\n>> [mode]: all\n\nadd @&zqq{2%g}", true, "conflicting-ref-quantity", true, false),
+    ("x @&(0)zq{}", true, "inter-ref-zero", true, false), ("a\n\nx @&(~0)zq{}", true, "inter-ref-self", true, false), ("x @&(99)zq{}", true, "inter-ref-bounds", true, false),
+    ("x @&(x)zq{}", true, "inter-ref-invalid", true, true), ("x @&(~=1)zq{}", true, "inter-ref-wrong-order", true, true), ("x @&(-1)zq{}", true, "inter-ref-sign", true, true),
+    ("x @&()zq{}", true, "inter-ref-empty", true, true), ("x @&(99999)zq{}", true, "int-parse", true, true), ("x #&(1)zpot{}", true, "inter-ref-not-allowed:cookware", true, true),
+    (">> [mode]: nonsense", true, "config-invalid-value", true, false), (">> : value", false, "empty-metadata-key", true, true), ("x ~zt{some%min}", true, "timer-value-text", true, false),
+    ("x ~zt{5%zfoo}", true, "timer-unit-unknown", true, false), ("x ~zt{5%kg}", true, "timer-unit-not-time", true, false), ("x @zq{5%}", false, "empty-unit", false, true),
+    ("@zqq{1%g} and @&zqq{some}", true, "text-value-in-ref", false, false), ("@zqq{1%l} and @&zqq{2%kg}", true, "incompatible-units", false, false), ("x @+zq{}", true, "redundant-new", false, false),
+    (">> [zz]: 1", true, "config-unknown-key", false, false), (">> [mode]: components\n\nsome words @zq{}\n\n>> [mode]: all", true, "text-in-components-mode", false, false),
+    (">> [mode]: text\n\nadd @zq{} now", true, "component-in-text-mode:ingredient", false, false), ("x ~zt{5%min}(note)", false, "note-not-allowed:timer", false, true),
+    (">> time: soon", true, "std-unsupported-value", false, false), ("---\ntime: soon\n---\nx", true, "std-unsupported-value", false, false), (">> prep time: 5 min\n>> time: 10 min", true, "time-overridden", false, false),
+    ("---\nprep time: 5 min\ntime: 10 min\n---\nx", true, "time-overridden-fm", false, false), (">> a: b", false, "meta-deprecated", false, false), (">> a:", false, "empty-metadata-value", false, true),
+    ("x @zq{=1%g}(n) and #zp{=2}", true, "unnecessary-scaling-lock", false, false), ("@zq{} and @&&zq{}", true, "duplicate-modifier", true, true), ("x @&zq{}", true, "reference-not-found", true, false),
+    ("x @.5", false, "invalid-single-word-name", false, true), ("x @zq{1.2.3%g}", false, "float-parse", true, true), ("= a = b", false, "section-invalid", false, true),
+    ("@zq{} then @&(~1)?zq{}", true, "inter-ref-conflicting-modifiers", true, false), ("x @zq{} and @&zq{}", true, "redundant-ref", false, false), ("x @./znone{}", true, "recipe-not-found", false, false),
+];
+
+/// Learn the current wording of catalogued diagnostics (see above). Returns notes for the evidence.
+pub fn calibrate() -> Vec<String> {
+    let mut notes = Vec::new();
+    for (input, extended, kind, error, parse) in CALIBRATION {
+        let ext = if *extended { cooklang::Extensions::all() } else { cooklang::Extensions::empty() };
+        let parser = cooklang::CooklangParser::new(ext, cooklang::Converter::bundled());
+        let Ok(report) = crate::util::guarded(|| parser.parse(input).report().clone()) else { continue };
+        let kinds: Vec<String> = report.iter().map(diag_kind).collect();
+        if kinds.iter().any(|k| k == kind) { continue; }
+        let want_sev = if *error { cooklang::error::Severity::Error } else { cooklang::error::Severity::Warning };
+        let want_stage = if *parse { cooklang::error::Stage::Parse } else { cooklang::error::Stage::Analysis };
+        let cands: Vec<&SourceDiag> = report.iter().zip(kinds.iter()).filter(|(d, k)| k.starts_with("other:") && d.severity == want_sev && d.stage == want_stage).map(|(d, _)| d).collect();
+        if cands.len() != 1 { continue; }
+        let msg: &str = &cands[0].message;
+        let mut k = kind.to_string();
+        for c in ["ingredient", "cookware", "timer"] { if let Some(stem) = k.strip_suffix(c) { if stem.ends_with(':') && msg.contains(c) { k = format!("{stem}{{c}}"); } } }
+        let t = template(msg);
+        if let Ok(mut l) = LEARNED.write() {
+            if !l.iter().any(|(tt, _)| *tt == t) {
+                l.push((t, k.clone()));
+                notes.push(format!("the message of diagnostic kind `{kind}` is not the catalogued text any more (now {msg:?} on input {input:?}); it is recognised by its place (only unrecognised {} of the {} stage in the report of the catalogue construct) — a rewording is presentation, not a violation", if *error { "error" } else { "warning" }, if *parse { "parse" } else { "analysis" }));
+            }
+        }
+    }
+    notes
 }
 
 pub fn r_diag(d: &SourceDiag) -> String {
